@@ -84,3 +84,20 @@ func init() {
 			"the memo table of synthesised names (strings table) is keyed by eqStrings/hashStrings: that Get may miss an equal key only loses sharing (a second helper with the same schema), which L-EXP does not need; hashStrings is proved to hash the alternatives in sorted order and to only reorder the caller's list (A-SORT: sort.Quick sorts; hasher modelled as a fold)"},
 	})
 }
+
+func init() {
+	register(&PropSpec{
+		ID: "C03", Level: "other",
+		Pkgs:    []string{"./internal/ebnf/parser/spec"},
+		Prepare: prepareAll,
+		Select: []Selector{
+			{Units: specPkgRe + `stringToDFA$`},
+			{Units: specPkgRe + `Spec\.DFA(\$\d+)?$`},
+			{Units: specPkgRe + `SymbolTable\.Definitions(\$1)?$`, Kinds: `^(post|inv-init|inv-pres|refine|vacuity)$`},
+		},
+		Explain: "Proved for all definition lists: (literals) stringToDFA builds exactly the chain 0 -c0-> 1 ... -> n over the characters of the value, one edge per character (UTF-8 sequence, not per byte), accepting in n only; (every definition compiled) DFA compiles each definition, an invalid pattern makes DFA fail, nothing is swallowed; (state map) every definition listed for an accepting state accepts there according to CombineDFA's state map; (winner, one obligation set per iteration over the accepting states, visited in ascending order) a state with one definition goes to that terminal; with several, if no conflict is recorded there is a string-literal definition that is the only literal among them and the state goes to its terminal; a conflict is recorded only if there are several definitions and either none or at least two of them are literals; no other terminal's state list changes; success returns non-nil results. Known finding: backslash escapes in literals are not resolved. NOT decided: that the combined automaton recognises exactly the union of the languages and that its state map is right - that is the dependency's CombineDFA (assumed; no bounded conformance run built), and the languages of patterns (C02).",
+		Trusted: []string{"assumed contracts: automata.NewDFA/Add (chain model), NewStates, CombineDFA (shape only), generic.SelectMatch (order- and multiplicity-preserving selection), slices.Sort, errors.Append; regexToDFA opaque (fails exactly on invalid patterns; effect-free)",
+			"L-CALLBACK: the predicate SelectMatch applies is the closure DFA$1, whose contract (result == !def.IsRegex) is proved",
+			"A-UTF8: rune value/size at a byte offset uninterpreted except on ASCII"},
+	})
+}
